@@ -208,7 +208,10 @@ func (fa *FuncAnalysis) lits(cond ssa.Value, truth bool, depth int) []Lit {
 			otherIdx = i
 			n++
 		}
-		if n == 1 {
+		// only for a materialised short-circuit (the phi of an `a && b` / `a || b` value): there the test of the phi IS the
+		// source condition. A flag variable assigned earlier (e.g. the result slot of an inlined helper) is re-tested, not
+		// tested: its edges get no implied literals — the path search remembers the flag's value instead (see Reach).
+		if n == 1 && x.Block().Comment == "binop.done" {
 			out = append(out, fa.lits(other, truth, depth+1)...)
 			out = append(out, fa.incomingLits(x.Block(), otherIdx, depth+1)...)
 		}
@@ -386,6 +389,16 @@ func (fa *FuncAnalysis) Reach(target func(ssa.Instruction) bool, o ReachOpts) ([
 				if cv, ok := constBool(iff.Cond); ok && (si == 0) != cv {
 					continue // branch on a constant: the other edge is dead
 				}
+				// a flag whose value on this path is known
+				cond, neg := iff.Cond, false
+				if u, ok := cond.(*ssa.UnOp); ok && u.Op == token.NOT {
+					cond, neg = u.X, true
+				}
+				if ph, ok := cond.(*ssa.Phi); ok && !o.NoPrune {
+					if v, ok := known["φ"+ph.Name()]; ok && ((si == 0) != (v != neg)) {
+						continue
+					}
+				}
 			}
 			nk := known
 			if ck, ok := fa.condKey[b]; ok && !o.NoPrune && len(b.Succs) == 2 {
@@ -400,6 +413,53 @@ func (fa *FuncAnalysis) Reach(target func(ssa.Instruction) bool, o ReachOpts) ([
 						nk[k] = v
 					}
 					nk[ck.key] = val
+				}
+			}
+			// boolean phis of the successor whose incoming value on this edge is a constant (a flag assigned on the way,
+			// e.g. the result slot of an inlined helper): remember it for the test that follows
+			if !o.NoPrune {
+				occ := 0
+				for j := 0; j < si; j++ {
+					if b.Succs[j] == s {
+						occ++
+					}
+				}
+				pi := -1
+				for j, pr := range s.Preds {
+					if pr == b {
+						if occ == 0 {
+							pi = j
+							break
+						}
+						occ--
+					}
+				}
+				if pi >= 0 {
+					for _, in := range s.Instrs {
+						ph, ok := in.(*ssa.Phi)
+						if !ok {
+							break
+						}
+						if !isBoolType(ph.Type()) || pi >= len(ph.Edges) {
+							continue
+						}
+						key := "φ" + ph.Name()
+						cv, isConst := constBool(ph.Edges[pi])
+						_, had := nk[key]
+						if !isConst && !had {
+							continue
+						}
+						cp := make(map[string]bool, len(nk)+1)
+						for k, v := range nk {
+							cp[k] = v
+						}
+						if isConst {
+							cp[key] = cv
+						} else {
+							delete(cp, key)
+						}
+						nk = cp
+					}
 				}
 			}
 			path = append(path, pathStep{b, si})
